@@ -33,12 +33,14 @@ type OpB struct {
 	Answer  string   `json:"answer,omitempty"` // ok fail defer
 	Err     uint32   `json:"err,omitempty"`
 	Chunks  [][]byte `json:"chunks,omitempty"`
-	By      string   `json:"by,omitempty"` // agent client-fin client-rst
+	Sleep   bool     `json:"sleep,omitempty"` // c2a: the agent sleeps - every chunk is awaited into the queue as its own write task before the queue is fetched
+	By      string   `json:"by,omitempty"`    // agent client-fin client-rst
 	Dup     bool     `json:"dup,omitempty"`
 	FwdID   uint32   `json:"fwd_id,omitempty"`
 	Reply   []byte   `json:"reply,omitempty"`    // pf: what the target answers before it closes
 	TargetC bool     `json:"target_c,omitempty"` // pf: the target closes first (else the agent's REMOVE ends the session)
 	DupOpen bool     `json:"dup_open,omitempty"`
+	Twin    bool     `json:"twin,omitempty"` // pf: two forwards answer before the queue is fetched
 }
 
 type CaseB struct {
@@ -84,6 +86,33 @@ func genChunks(t *rapid.T, big *bool) [][]byte {
 	var out [][]byte
 	for i := 0; i < k; i++ {
 		out = append(out, genChunk(t, big))
+	}
+	return out
+}
+
+// genSleepChunks: what a client sends while the agent sleeps: 2-6 non-empty chunks of
+// different content whose lengths go both down and up (a later chunk shorter than an
+// earlier one and a later chunk longer than an earlier one whenever there are >= 3), so
+// that write tasks which share storage cannot look right by accident.
+func genSleepChunks(t *rapid.T) [][]byte {
+	k := rapid.IntRange(2, 6).Draw(t, "nsleep")
+	var out [][]byte
+	prev := 0
+	for i := 0; i < k; i++ {
+		n := rapid.IntRange(1, 400).Draw(t, "n")
+		switch {
+		case i == 1 && n >= prev:
+			n = prev/2 + 1 // second one shorter (or equal when prev is 1)
+		case i == 2 && n <= prev:
+			n = prev*2 + 3 // third one longer
+		}
+		b := rapid.SliceOfN(rapid.Byte(), n, n).Draw(t, "bytes")
+		// contents differ from chunk to chunk even after shrinking: position-and-index tag
+		for j := range b {
+			b[j] ^= byte(0x11*(i+1)) + byte(j)
+		}
+		out = append(out, b)
+		prev = n
 	}
 	return out
 }
@@ -140,6 +169,10 @@ func genB(t *rapid.T) CaseB {
 			}
 		case "c2a", "a2c":
 			op.Chunks = genChunks(t, &big)
+			if kind == "c2a" && rapid.SampledFrom([]bool{true, false, true}).Draw(t, "sleep") {
+				op.Sleep = true
+				op.Chunks = genSleepChunks(t)
+			}
 		case "close":
 			op.By = rapid.SampledFrom([]string{"agent", "client-rst", "client-fin", "agent", "client-rst"}).Draw(t, "by")
 		case "add":
@@ -155,6 +188,7 @@ func genB(t *rapid.T) CaseB {
 				op.Reply = genChunk(t, &big)
 			}
 			op.DupOpen = rapid.SampledFrom([]bool{false, false, true}).Draw(t, "dup_open")
+			op.Twin = op.TargetC && rapid.Bool().Draw(t, "twin")
 		}
 		c.Ops = append(c.Ops, op)
 	}
@@ -512,8 +546,26 @@ func (x *runB) opC2A(op OpB) (*core.Violation, string) {
 	if cl == nil {
 		return nil, ""
 	}
-	want := bytes.Join(op.Chunks, nil)
-	if err := cl.sendChunks(op.Chunks); err != nil {
+	return x.c2aOn(cl, op.Chunks, op.Sleep, "b")
+}
+
+// c2aOn: the client writes the chunks; the write tasks are fetched afterwards, the way the
+// agent gets them (GetQueuedJobs + BuildPayloadMessage + the Demon's reader).  With sleep
+// every chunk is first awaited into the queue (relay parked again, all bytes consumed)
+// before the next one is written, so each chunk sits in the queue as its own task while
+// the later ones are being read - the situation of an agent that checks in rarely.
+func (x *runB) c2aOn(cl *bcli, chunks [][]byte, sleep bool, sub string) (*core.Violation, string) {
+	want := bytes.Join(chunks, nil)
+	if sleep {
+		for _, ch := range chunks {
+			if err := cl.sendChunks([][]byte{ch}); err != nil {
+				return nil, "client-write-failed"
+			}
+			if !x.f.quiesce(x.clis()) {
+				return nil, "no-quiescence-after-client-data"
+			}
+		}
+	} else if err := cl.sendChunks(chunks); err != nil {
 		return nil, "client-write-failed"
 	}
 	tasks, ok, v := x.settle()
@@ -523,18 +575,22 @@ func (x *runB) opC2A(op OpB) (*core.Violation, string) {
 	if !ok {
 		return nil, "no-quiescence-after-client-data"
 	}
+	mode := "c2a"
+	if sleep {
+		mode = "c2a-deferred-fetch"
+	}
 	var got []byte
 	for _, t := range tasks {
 		if t.Sub != scWrite || t.ID != cl.id {
-			return core.V(fmt.Sprintf("b|c2a|foreign-task|sub=%#x", t.Sub), "while only socket %08x carried data a task %#x for socket %08x was queued", cl.id, t.Sub, t.ID), ""
+			return core.V(fmt.Sprintf("%s|%s|foreign-task|sub=%#x", sub, mode, t.Sub), "while only socket %08x carried data a task %#x for socket %08x was queued", cl.id, t.Sub, t.ID), ""
 		}
 		if len(t.Data) == 0 {
-			return core.V("b|c2a|empty-write-task", "a write task without data was queued for socket %08x", cl.id), ""
+			return core.V(sub+"|"+mode+"|empty-write-task", "a write task without data was queued for socket %08x", cl.id), ""
 		}
 		got = append(got, t.Data...)
 	}
 	if !bytes.Equal(got, want) {
-		return core.V("b|c2a|bytes-differ|"+diffClass(got, want), "client wrote %d bytes in pieces %v; the write tasks of socket %08x carry %d bytes in %d tasks; first difference at offset %d", len(want), lens(op.Chunks), cl.id, len(got), len(tasks), firstDiff(got, want)), ""
+		return core.V(sub+"|"+mode+"|bytes-differ|"+diffClass(got, want), "client wrote %d bytes in pieces %v (each awaited into the queue before the next: %v); fetched afterwards, the %d write tasks of socket %08x carry %d bytes; first difference at offset %d", len(want), lens(chunks), sleep, len(tasks), cl.id, len(got), firstDiff(got, want)), ""
 	}
 	return nil, ""
 }
@@ -564,6 +620,11 @@ func (x *runB) opA2C(op OpB) (*core.Violation, string) {
 	if cl == nil {
 		return nil, ""
 	}
+	return x.a2cOn(cl, op.Chunks, "b")
+}
+
+func (x *runB) a2cOn(cl *bcli, chunks [][]byte, sub string) (*core.Violation, string) {
+	op := OpB{Chunks: chunks}
 	want := bytes.Join(op.Chunks, nil)
 	type res struct {
 		b   []byte
@@ -579,10 +640,10 @@ func (x *runB) opA2C(op OpB) (*core.Violation, string) {
 	}
 	r := <-done
 	if r.err != nil || !bytes.Equal(r.b, want) {
-		return core.V("b|a2c|bytes-differ|"+diffClass(r.b, want), "agent returned %d bytes in READ callbacks %v; the client read %d bytes (%v); first difference at offset %d", len(want), lens(op.Chunks), len(r.b), r.err, firstDiff(r.b, want)), ""
+		return core.V(sub+"|a2c|bytes-differ|"+diffClass(r.b, want), "agent returned %d bytes in READ callbacks %v; the client read %d bytes (%v); first difference at offset %d", len(want), lens(op.Chunks), len(r.b), r.err, firstDiff(r.b, want)), ""
 	}
 	if p := cl.pending(); len(p) != 0 {
-		return core.V("b|a2c|bytes-differ|bytes-added", "the client received %d bytes more than the agent returned", len(p)), ""
+		return core.V(sub+"|a2c|bytes-differ|bytes-added", "the client received %d bytes more than the agent returned", len(p)), ""
 	}
 	return nil, ""
 }
@@ -788,6 +849,35 @@ func (x *runB) queueLen() int {
 // what that client wrote (READ, type CLIENT); the teamserver dials the forward target on the
 // first data and relays; what the target answers comes back as write tasks; REMOVE ends it.
 func (x *runB) opPF(op OpB) (*core.Violation, string) {
+	held := map[uint32][]byte{}
+	if op.Twin && op.TargetC && len(op.Reply) > 0 {
+		// the agent sleeps over two forwards: the first one's write task is still queued while
+		// the second forward's answer (other id, other length, other content) is read and queued
+		if v, skipped := x.pfSession(op, held, false); v != nil || skipped != "" {
+			return v, skipped
+		}
+		op2 := op
+		op2.DupOpen = false
+		op2.FwdID = op.FwdID ^ 0x5a5a
+		if op2.FwdID == 0 {
+			op2.FwdID = 0x5a5b
+		}
+		op2.Reply = nil
+		for i := len(op.Reply) - 1; i >= 0; i-- {
+			op2.Reply = append(op2.Reply, ^op.Reply[i])
+		}
+		op2.Reply = append(op2.Reply, 0xa5, 0x5a, byte(len(op.Reply)))
+		if len(op.Reply) > 8 {
+			op2.Reply = op2.Reply[:len(op.Reply)/2] // shorter than the first; otherwise longer
+		}
+		return x.pfSession(op2, held, true)
+	}
+	return x.pfSession(op, held, true)
+}
+
+// pfSession runs one forward; with fetch=false its write task is left in the queue and the
+// expectation is parked in held for the session that fetches.
+func (x *runB) pfSession(op OpB, held map[uint32][]byte, fetch bool) (*core.Violation, string) {
 	f := x.f
 	id := op.FwdID
 	if id == 0 {
@@ -904,19 +994,29 @@ func (x *runB) opPF(op OpB) (*core.Violation, string) {
 			return core.V("b|pf|remove|target-no-eof", "after the REMOVE callback the forward target read %d bytes, err=%v", n, err), ""
 		}
 	}
+	held[id] = wantBack
+	if !fetch {
+		return nil, ""
+	}
 	tasks, v := f.takeTasks()
 	if v != nil {
 		return v, ""
 	}
-	var got []byte
+	got := map[uint32][]byte{}
 	for _, t := range tasks {
-		if t.Sub != scWrite || t.ID != id {
+		if _, mine := held[t.ID]; t.Sub != scWrite || !mine {
 			return core.V(fmt.Sprintf("b|pf|foreign-task|sub=%#x", t.Sub), "during the session of forward %08x a task %#x for socket %08x was queued", id, t.Sub, t.ID), ""
 		}
-		got = append(got, t.Data...)
+		got[t.ID] = append(got[t.ID], t.Data...)
 	}
-	if !bytes.Equal(got, wantBack) {
-		return core.V("b|pf|t2a|bytes-differ|"+diffClass(got, wantBack), "forward %08x: the target answered %d bytes and closed; the write tasks carry %d bytes, first difference at %d", id, len(wantBack), len(got), firstDiff(got, wantBack)), ""
+	mode := "t2a"
+	if len(held) > 1 {
+		mode = "t2a-deferred-fetch"
+	}
+	for fid, want := range held {
+		if !bytes.Equal(got[fid], want) {
+			return core.V("b|pf|"+mode+"|bytes-differ|"+diffClass(got[fid], want), "forward %08x: the target answered %d bytes and closed; fetched afterwards (%d forwards in one fetch) the write tasks carry %d bytes, first difference at %d", fid, len(want), len(held), len(got[fid]), firstDiff(got[fid], want)), ""
+		}
 	}
 	return f.mutexesFree("b|pf"), ""
 }
@@ -943,6 +1043,7 @@ func readFull(c net.Conn, buf []byte) (int, error) {
 func classifyB(c CaseB) core.Class {
 	var cl core.Class
 	nconn, split, dl := 0, false, false
+	deferred := false
 	kinds := map[string]bool{}
 	bigC := false
 	for _, op := range c.Ops {
@@ -960,13 +1061,19 @@ func classifyB(c CaseB) core.Class {
 		case "close":
 			l += ":" + op.By
 		case "c2a", "a2c":
+			if op.Sleep {
+				l = fmt.Sprintf("op:c2a:deferred-fetch:tasks-per-fetch=%d", len(op.Chunks))
+				deferred = true
+			}
 			for _, ch := range op.Chunks {
 				if len(ch) > 65536 {
 					bigC = true
 				}
 			}
 		case "pf":
-			if op.TargetC {
+			if op.TargetC && op.Twin && len(op.Reply) > 0 {
+				l += ":target-closes:two-forwards-per-fetch"
+			} else if op.TargetC {
 				l += ":target-closes"
 			} else {
 				l += ":agent-removes"
@@ -987,7 +1094,7 @@ func classifyB(c CaseB) core.Class {
 		ks = append(ks, k)
 	}
 	sort.Strings(ks)
-	cl.Fingerprint = fmt.Sprintf("ops=%s|clients=%d|split=%v|dlen0or255=%v|big=%v", strings.Join(ks, ","), min(nconn, 3), split, dl, bigC)
+	cl.Fingerprint = fmt.Sprintf("ops=%s|clients=%d|split=%v|dlen0or255=%v|big=%v|deferred=%v", strings.Join(ks, ","), min(nconn, 3), split, dl, bigC, deferred)
 	return cl
 }
 
